@@ -339,8 +339,11 @@ def _guarded_by_done(pm, call, fut: str, stop) -> bool:
             blk = getattr(p, field, None)
             if isinstance(blk, list) and any(n is x for x in blk):
                 for st in blk[: [i for i, x in enumerate(blk) if x is n][0]]:
-                    if isinstance(st, ast.If) and isinstance(st.test, ast.Call) and isinstance(st.test.func, ast.Attribute) and st.test.func.attr == "done" \
-                            and dotted(st.test.func.value) == fut and st.body and isinstance(st.body[-1], (ast.Return, ast.Continue, ast.Raise)):
+                    if not (isinstance(st, ast.If) and st.body and isinstance(st.body[-1], (ast.Return, ast.Continue, ast.Raise))):
+                        continue
+                    # `if fut.done(): return` or `if fut is None or fut.done(): return` (any disjunct being true leaves)
+                    disj = st.test.values if isinstance(st.test, ast.BoolOp) and isinstance(st.test.op, ast.Or) else [st.test]
+                    if any(isinstance(d_, ast.Call) and isinstance(d_.func, ast.Attribute) and d_.func.attr == "done" and dotted(d_.func.value) == fut for d_ in disj):
                         return True
         n = p
     return False
